@@ -440,7 +440,7 @@ def do_op(s, mc, op, rng):
             # the local DNS server replies to whatever it was handed in the meantime
             _resolver_replies_to_all(s, rng)
     elif op == "hs":
-        which = rng.randrange(6)
+        which = rng.randrange(8)
         if which == 0:
             mc.ask(proto.msg_upcheck(mc.domain, rng.choice([b"aAbBcC0129-", b"aA\xe4\xfb-", b"aA+_"]), mc.new_cmc()), timeout_us=300000)
         elif which == 1:
@@ -450,6 +450,14 @@ def do_op(s, mc, op, rng):
             mc.ask(proto.msg_fragprobe(mc.domain, mc.userid, sz, proto.BASE32.encode(bytes(rng.getrandbits(8) for _ in range(40)))), timeout_us=300000)
         elif which == 3:
             mc.ip_request()
+        elif which == 6:
+            # the session asks for an upstream codec the server does not know (every value but 5, 6, 7 and 26), or one it has
+            m_ = mc.ask(proto.msg_switch_codec(mc.domain, mc.userid, rng.choice([0, 1, 4, 8, 9, 25, 27, 31, 5]), mc.new_cmc()), timeout_us=300000)
+            if m_ is not None and mc.payload(m_) == b"Base32":
+                mc.up = proto.BASE32
+        elif which == 7:
+            # ... or for an option nobody defined
+            mc.ask(proto.msg_option(mc.domain, mc.userid, rng.choice([b"x", b"q", b"0", b"z", b"-"]), mc.new_cmc()), timeout_us=300000)
         elif which == 4:
             mc.ask(proto.msg_version(mc.domain, mc.new_cmc(), rng.choice([0x00000501, 0x00000502 ^ 0x100])), timeout_us=300000)
         else:
